@@ -7,7 +7,9 @@ if ! git diff --quiet; then echo "/repo has uncommitted changes"; exit 2; fi
 git apply "$d/patch.diff" 2>/dev/null || git apply --3way "$d/patch.diff" 2>/dev/null || { echo "PATCH-DOES-NOT-APPLY $d"; git checkout -- . ; exit 3; }
 git reset -q 2>/dev/null
 for id in "$@"; do
+  cp /verif/evidence/$id.json /tmp/evidence_$id.bak 2>/dev/null      # evidence files describe runs on the unchanged tree only
   out=$(cd /verif && bin/check $id quick 2>&1); rc=$?
+  mv /tmp/evidence_$id.bak /verif/evidence/$id.json 2>/dev/null
   sig=$(echo "$out" | grep -A1 "^VIOLATION" | grep signature | head -3 | tr '\n' ';')
   case $rc in 1) echo "$(basename $d) $id DETECTED $sig";; 0) echo "$(basename $d) $id MISSED";; *) echo "$(basename $d) $id TOOLERR rc=$rc"; echo "$out" | tail -5;; esac
 done
